@@ -63,8 +63,8 @@ attack("rebinding instead of in-place wrap (new[3:] = ... -> tail = new[3:]; tai
        "new[3:] = new[3:] % (2 * np.pi)", "tail = new[3:]\n        tail = tail % (2 * np.pi)")
 attack("float for int in an array display ([1, 0, 0] -> [1.0, 0, 0]); harmless here, never to be identified in general", "beyond/utils/matrix.py",
        "[1, 0, 0]", "[1.0, 0, 0]")
-attack("is for == on a string", "beyond/orbits/man.py",
-       'XX')
+attack("`not x` for `x is None` (0 / 0.0 / empty array are falsy too)", "beyond/orbits/man.py",
+       "if accel is None and dv is None:", "if not accel and not dv:")
 attack("`x or default` for an explicit None test", "beyond/propagators/keplernum.py",
        "if b_star is None:", "if not b_star:")
 
